@@ -200,16 +200,25 @@ func (g *Gen) Sandwich() node.Type {
 // an index) on the right of an operator whose left operand is itself an operation, so that a
 // partial result is live while the wrapped operand is evaluated.
 func (g *Gen) DeepOperand() node.Type {
+	mid := g.DeepMid()
+	left := node.BinOp{Op: g.op(), Left: g.Leaf(), Right: g.Leaf()}
+	return node.BinOp{Op: g.op(), Left: left, Right: mid}
+}
+
+// DeepMid builds W1(W2(x)) with W2 a call and W1 any non-call position.
+func (g *Gen) DeepMid() node.Type {
 	var x node.Type = node.Int(vrt.Int("lit"))
 	if vrt.Bool("inner-op") {
 		x = node.BinOp{Op: g.op(), Left: x, Right: node.Int(vrt.Int("lit"))}
 	}
 	calls := [...]int{5, 12} // id(e), two(k, e)
 	mid := g.Wrap(calls[vrt.Choice("wrap-call", 2)], x)
-	outerW := [...]int{0, 6, 7, 8, 4} // a[e], [e], [k, e], -e, e[k:k]
+	outerW := [...]int{0, 6, 7, 8, 4, 3, 2, 1, 9} // a[e], [e], [k, e], -e, e[k:k], s[k:e], a[e:k], e[k], #e
 	mid = g.Wrap(outerW[vrt.Choice("wrap-outer", len(outerW))], mid)
-	left := node.BinOp{Op: g.op(), Left: g.Leaf(), Right: g.Leaf()}
-	return node.BinOp{Op: g.op(), Left: left, Right: mid}
+	if vrt.Bool("length-of") {
+		mid = node.UnOp{Op: "#", Target: mid}
+	}
+	return mid
 }
 
 // Chain builds a left- or right-nested chain of k operators over leaves.
